@@ -2606,7 +2606,9 @@ class AggregateBase(UnitsManaged, Saveable, OpenSystem):
 
         from ..core.units import kB_intK
 
-        kBT = kB_intK*temp
+        # the energies below come from the Hamiltonian in the current energy
+        # units; the thermal energy has to be expressed in the same units
+        kBT = self.convert_energy_2_current_u(kB_intK*temp)
 
         #if not relaxation_hamiltonian:
         #    HH = self.get_Hamiltonian()
